@@ -137,6 +137,31 @@ fn tl_case<S: Shape>(r: &mut Rng, acc: &mut Acc, index: u64) {
             acc.sig(format!("{}|{}|{}|merged={merged}|empty={all_empty}", S::NAME, untouched_names.join(","), m.class()));
         }
     }
+    // keyframe_from route: a timeline built from a whole value must still leave excluded fields alone
+    if S::N_ANIM < S::n() {
+        let mut v = S::default();
+        for i in 0..S::n() {
+            v.set(i, gen_value(r, S::KINDS[i]));
+        }
+        let p = *r.pick(&[0.0f32, 0.5, 1.0]);
+        let tl = S::build_from_value(&v, p);
+        for t in [-1.0f32, 0.0, p, 0.75, 1.0, 5.0] {
+            let before = fill_sentinels::<S>(r);
+            let mut out = before.clone();
+            tl.update(&mut out, t);
+            acc.eval();
+            for f in S::N_ANIM..S::n() {
+                if out.bits(f) != before.bits(f) {
+                    acc.violation(
+                        "c08:excluded-field-via-keyframe_from",
+                        format!("{}: field {} is excluded from animation but a timeline built with keyframe_from changed it from bits {:#x} to {:#x} at t={t}", S::NAME, S::FIELDS[f], before.bits(f), out.bits(f)),
+                        case_json(STREAM_TL, index, vec![("shape", J::s(S::NAME)), ("clause", J::s("keyframe_from")), ("t", J::F(t as f64)), ("field", J::s(S::FIELDS[f]))]),
+                    );
+                }
+            }
+            acc.sig(format!("{}|keyframe_from|t={t}", S::NAME));
+        }
+    }
     acc.sample(3, || {
         J::obj(vec![
             ("stream", J::U(STREAM_TL)), ("index", J::U(index)), ("shape", J::s(S::NAME)),
